@@ -4,16 +4,15 @@
 export GOFLAGS=-mod=mod GOPROXY=off GOSUMDB=off GOTOOLCHAIN=local; unset GOWORK
 wt=$1; k=$2; o=$wt/out/$k
 cd "$wt" || exit 2
-git checkout -q -- . ; git clean -qfd -e out
+git reset -q --hard HEAD; git clean -qfd -e out
 echo "== demo WITHOUT change"; timeout 600 bash $o/demo/run.sh > /tmp/seed_without.log 2>&1; w0=$?; echo "exit=$w0"
-git checkout -q -- . ; git clean -qfd -e out
+git reset -q --hard HEAD; git clean -qfd -e out
 git apply $o/patch.diff || { echo "PATCH DOES NOT APPLY"; exit 3; }
 echo "== build"; go build ./... ; b=$?; echo "exit=$b"
 echo "== demo WITH change"; timeout 600 bash $o/demo/run.sh > /tmp/seed_with.log 2>&1; w1=$?; echo "exit=$w1"
 # demos may have added test files; keep only the patch for the pinned run
-git stash -q -u -- . ':!out' 2>/dev/null; git stash drop -q 2>/dev/null
-git checkout -q -- . ; git clean -qfd -e out; git apply $o/patch.diff
+git reset -q --hard HEAD; git clean -qfd -e out; git apply $o/patch.diff
 echo "== pinned tests WITH change"; timeout 900 go test ./pkg/fs -run 'TestFileInfo|TestFile_Name' -count=1 > /tmp/seed_pinned.log 2>&1; t=$?; tail -2 /tmp/seed_pinned.log; echo "exit=$t"
-git checkout -q -- . ; git clean -qfd -e out
+git reset -q --hard HEAD; git clean -qfd -e out
 echo "SUMMARY without=$w0 build=$b with=$w1 pinned=$t"
 [ $w0 -eq 0 ] && [ $b -eq 0 ] && [ $w1 -ne 0 ] && [ $t -eq 0 ]
